@@ -2,7 +2,7 @@
 """Re-runs every stored seeded change against the current checks and updates seeded/*/meta.json and seeded/SUMMARY.md."""
 import json, os, subprocess, sys, glob, time
 V = "/verif"
-EXTRA = {"C09-B": ["C05"]}
+EXTRA = {"C09-B": ["C05"], "C09-r2C": ["C05"], "C10-r2C": ["C09"], "C03-r2C": ["C04"], "C19-r2C": ["C05"]}
 only = sys.argv[1:]
 rows = []
 for d in sorted(glob.glob(V + "/seeded/*/")):
